@@ -37,6 +37,10 @@ def run(repo, run, tier):
     from .c06 import piece_store_single_writer
     piece_store_single_writer(repo, run, rule_id="C19.10")
     whole_run_slice(repo, run, fn, idx)
+    # 'returns the dense solution there': the pieces a time lookup bisects are exactly those of the recorded steps - every piece of a rolled-back step is removed again,
+    # however many pieces one step adds (a Richardson step adds one per sub-step)
+    from .c09 import balance_rule
+    balance_rule(repo, run, "C19.12", want="all")
 
 
 
@@ -307,22 +311,22 @@ def dense_branch(repo, run, fn, idx):
             "; e.g. with %s" % cex if cex else ""), text="dense lookup branch")
 
 
-def length(repo, run):
-    rid = run.rule("C19.6", "len(system) is the number of recorded rows (counter + 1), which is what sequence iteration and negative indices rely on", floor=1)
+def length(repo, run, rule_id="C19.6"):
+    rid = run.rule(rule_id, "len(system) is the number of recorded rows (counter + 1), which is what sequence iteration and negative indices rely on", floor=1)
     fn = repo.get(DS, "OdeSystem.__len__")
     run.analysed_fn(DS, fn)
     rets = [st for st in fn.body if isinstance(st, ast.Return)]
     ok = len(rets) == 1 and Canon().poly(rets[0].value) == Poly.atom("self.counter") + Poly.const(1)
     run.judged(rid, "__len__ returns %s" % (src(rets[0].value) if rets else None), ok=ok)
     if not ok:
-        run.report("C19.6", DS, fn, "__len__ is not counter + 1")
+        run.report(rule_id, DS, fn, "__len__ is not counter + 1")
     for q, want in (("OdeSystem.t", "self.__t[:self.counter + 1]"), ("OdeSystem.y", "self.__y[:self.counter + 1]")):
         g = repo.get(DS, q)
         r = [st for st in g.body if isinstance(st, ast.Return)]
         ok = len(r) == 1 and src(r[0].value) == want
         run.judged(rid, "%s returns %s" % (q, src(r[0].value) if r else None), ok=ok)
         if not ok:
-            run.report("C19.6", DS, g, "the trimmed view %s is not %s" % (q, want))
+            run.report(rule_id, DS, g, "the trimmed view %s is not %s" % (q, want))
 
 
 def whole_run_slice(repo, run, fn, idx):
